@@ -339,8 +339,13 @@ def lift_threshold(repo):
         L.append(f"  {b} : Rat")
     L.append("deriving Repr, DecidableEq\n")
     L.append("namespace CM")
+    # only the derived fields some METRIC_DICT entry reads are emitted (a field nothing reads would be pinned by nothing);
+    # an edit that makes a metric read another field of the Bunch makes that field appear here
+    import re
+    used = {d for d, _ in derived if any(re.search(rf"\bx\.{d}\b", e) for _, e in metrics)}
     for d, e in derived:
-        L.append(f"def {d} (x : CM) : Rat := {e}")
+        if d in used:
+            L.append(f"def {d} (x : CM) : Rat := {e}")
     L.append("end CM\n")
     L.append("/-- keys of METRIC_DICT -/")
     L.append("inductive Metric where")
